@@ -500,7 +500,7 @@ def replay(ctx, data):
 
 
 MANIFEST = dict(
-    technique="Lean 4 reference evaluator (tokenizer, 7-level parser, evaluator, statement machine) with theorems for all programs; translator for the token/keyword tables; differential testing against the real engine under four hosts, forked per case",
-    text="Theorems (Properties/C17.lean): parse_print_roundtrip (printing any expression tree with minimal parentheses and parsing it back gives the same tree: precedence/associativity are those of the grammar), eval_compositional, for_iterations (exact count and final value in exact arithmetic), gosub_return_stack (any nesting depth), read_data_order, exec_total / fuel monotonicity (values or typed error, never stuck), hosts_agree (host observations are projections of one run), keyword/mask facts over the generated token tables. Obligation over generated data: the documented keywords and operator masks extracted from PBasic.cpp/PBasic.h. Correspondence: generated valid and malformed programs, values from GetSelectedOutputValue / calc_kinetic_reaction / -calculate_values / USER_PRINT text vs the Lean evaluator at 1e-12 relative; hosts compared with each other.",
-    note="Trusted: Lean kernel; tools/gen_basic.py (regex extraction); harness/ph_basic.cpp (fork per case, friend access to calc_kinetic_reaction); tools/gens/basic.py; comparison logic in tools/props/c17.py; platform libm shared by both sides. Partial: chemistry functions, PEEK/POKE (known finding basic-peek-poke), editor commands (LIST/RUN/NEW/LOAD/DEL/RENUM), INPUT, GOTOXY, STR_F$/STR_E$ are outside the model (reported 'unsupported', never generated); values computed after a C conversion with undefined behaviour are not judged; PRINT text is compared exactly up to NaN sign / last digit.",
+    technique="Lean 4 reference evaluator of PBasic (tokenizer, level-indexed 7-level parser, evaluator, token-driven statement machine, basic_compile/basic_run) with theorems for all expressions/programs/states; translator for the token enumeration, keyword table and operator masks; differential testing against the real engine under four hosts, one forked child per case",
+    text="Theorems (Properties/C17.lean, 20): parse_print_roundtrip_partial / parse_level_roundtrip_partial (for every well-formed derivation of the documented expression grammar - 15 binary operators on 6 levels, prefix operators/functions, parenthesised-argument string functions, redundant parentheses - the model's parser returns exactly the tree the derivation denotes: left fold per level, ^ to the right, unary tighter than binary), eval_compositional(+_un), run_fuel_mono + exec_total (a run ends with values or a typed error independent of the budget; no other outcome exists), hosts_agree (the four hosts observe projections of one run; RATES = CALCULATE_VALUES; error under one is error under all), gosub_return_stack + return_without_gosub (any nesting depth, any open FOR/WHILE frames), read_data_order + scanToks_first (DATA items in program order, first match), for_iterations / for_iterations_down / for_count_closed_form over exact rationals with uninterpreted libm (count floor((b-a)/s)+1, values, final value), next_uses_nextContinues (the machine's NEXT is that decision function). Obligations over generated data (decide): keywords_documented, functions_documented, rel_mask_is_the_six_relations, loop_masks on Gen/BasicTokens.lean regenerated from PBasic.h/PBasic.cpp each run. Correspondence: 300 (quick) / 30000 (thorough) generated programs, 30% with one malformed-program mutation, plus fixed corpus and documented-value (golden) programs; USER_PUNCH via GetSelectedOutputValue, USER_PRINT text, RATES via calc_kinetic_reaction, CALCULATE_VALUES via -calculate_values; numbers at 1e-12 relative, strings exact, error-vs-value must agree, signal/exception/hang = violation; hosts also compared with each other.",
+    note="Trusted: Lean kernel; tools/gen_basic.py (regex extraction); harness/ph_basic.cpp (fork per case, friend access to calc_kinetic_reaction); tools/gens/basic.py; comparison logic in tools/props/c17.py; platform libm/strtod/printf shared by both sides (decimal->double and %e/%f formatting are re-implemented exactly in Model/BasicNum.lean). Partial / not judged (all counted in the evidence): subscripted variables and GET(..) are outside the derivation type of the round-trip theorem; chemistry functions, PEEK/POKE (known finding basic-peek-poke), editor commands (LIST/RUN/NEW/LOAD/MERGE/DEL/RENUM), INPUT, GOTOXY, STR_F$/STR_E$, hexadecimal literals are outside the model ('unsupported', never generated); values after a C conversion with undefined behaviour ((long) of NaN/out of range) or after formatting a NaN (printf shows its sign bit) are compared but a difference is not a violation; programs that exhaust the model's budget (20000 statements), 4M-character strings or 2M-cell arrays are only checked for 'no crash' (budget) or not at all (memory).",
 )
